@@ -881,7 +881,8 @@ PTRef ArithLogic::mkConst(SRef s, char const * name) {
             stringToRational(rat, name);
         else {
             if (not isIntString(name)) throw ApiException("Not parseable as an integer");
-            rat = strdup(name);
+            // Canonical spelling: "007", "-0" and "7", "0" must be the same constants
+            rat = strdup(Number(name).get_str().c_str());
         }
         ptr = mkVar(s, rat, true);
         // Store the value of the number as a real
